@@ -35,6 +35,8 @@ type Job struct {
 	Dump      bool    `json:"dump"`
 	GraceMs   int     `json:"grace_ms"`
 	PostCalls bool    `json:"post_calls"`
+	MaxMs     int     `json:"max_ms"`     // give up on a run that has not reached quiescence after this long (0 = 8000)
+	MaxEvents int     `json:"max_events"` // stop recording after this many events (0 = 30000)
 }
 
 type Result struct {
@@ -57,6 +59,8 @@ type Result struct {
 	ReplayWhy string      `json:"replay_why"`
 	WallMs    int64       `json:"wall_ms"`
 	Hooks     bool        `json:"hooks"`
+	Timeout   bool        `json:"timeout"`  // the run did not reach quiescence within max_ms (non-terminating or far too slow)
+	Overflow  bool        `json:"overflow"` // more events than max_events: recording stopped
 	TcEvents  []string    `json:"tc_events,omitempty"`
 }
 
@@ -145,6 +149,23 @@ func runJob(j Job) (res Result) {
 	if hooksOn && (j.Trace || control) {
 		t = newTracer(genv, j.Seed, j.Yield, control)
 	}
+	maxMs := j.MaxMs
+	if maxMs <= 0 {
+		maxMs = 8000
+	}
+	finished := make(chan struct{})
+	go func() {
+		select {
+		case <-finished:
+		case <-time.After(time.Duration(maxMs) * time.Millisecond):
+			// report and leave: InitializeProcesses cannot be interrupted
+			res.Timeout = true
+			res.WallMs = time.Since(start).Milliseconds()
+			resultSink(res)
+			os.Exit(0)
+		}
+	}()
+	setMaxEvents(t, j.MaxEvents)
 	out := captureStdout(func() {
 		if t == nil {
 			process.InitializeProcesses(procs, nil, nil, re)
@@ -152,6 +173,7 @@ func runJob(j Job) (res Result) {
 		}
 		res.ReplayDiv, res.ReplayWhy = execTraced(t, re, procs, j.Sched)
 	})
+	close(finished)
 	res.Ran = true
 	if j.Monitor {
 		func() {
@@ -171,10 +193,13 @@ func runJob(j Job) (res Result) {
 	if t != nil {
 		res.Blocked = t.snapshot()
 		res.Events, res.Late = t.collect()
+		res.Overflow = overflowed(t)
 		install(nil)
 	}
 	return res
 }
+
+var resultSink = func(Result) {}
 
 func main() {
 	in := flag.String("in", "-", "jobs (ndjson); - = stdin")
@@ -215,6 +240,7 @@ func main() {
 		}
 		enc.Encode(Result{Id: j.Id, Begin: true})
 		w.Sync()
+		resultSink = func(r Result) { enc.Encode(r); w.Sync() }
 		res := runJob(j)
 		enc.Encode(res)
 		w.Sync()
